@@ -22,6 +22,7 @@ Print Assumptions interleave_serial_equiv.
 Theorem nopool_shared_footprint_refuted :
   minus reachable_writable_nopool hook_state <> [].
 Proof. vm_compute. discriminate. Qed.
+Print Assumptions nopool_shared_footprint_refuted.
 
 (* What is proved instead: nothing else is shared - every reachable writable global is one of the
    five generator variables (known finding) or the hook; a new static buffer, cache or counter
